@@ -23,7 +23,12 @@ RULE = (
     "sender is blocked / unblocked for a kind AFTER messages of that sender and kind were already filtered; the "
     "oracle uses the block list as it is when the message is processed; and run-time edits of "
     "settings.credentials.username (to the name of another user of the history or a foreign name) - the fold keeps "
-    "the name the client logged in with for everything 'about us'. Every stats carrier (JoinRoom user data, UserJoinedRoom, GetUserStats, "
+    "the name the client logged in with for everything 'about us'; and (at most twice per case) 'relogin': the "
+    "simulated server resets the connection, the harness waits 20 ms, connects (Network.connect_server) and logs in "
+    "again as 'me' - the fold restarts from the login baseline (no rooms, users unknown / not privileged, own user "
+    "as after the first login), i.e. the views are compared with the fold of the NEW session's notifications only. "
+    "Case field hold_users (about 1/3 of the cases): the event recorder additionally keeps every User object it is "
+    "handed in events for the whole case, like an application roster (otherwise it keeps names only). Every stats carrier (JoinRoom user data, UserJoinedRoom, GetUserStats, "
     "AddUser) draws each of the four counters from {0 (weight 1/3), two small values, a medium one, one near the "
     "uint32 limit}, so a counter first reported as 0 and a counter dropping to 0 for a known user are common. "
     "Each is sent as a real frame by the simulated server to ONE real logged-in SoulSeekClient (virtual loop, "
@@ -61,6 +66,10 @@ ASSUMPTIONS = [
     "this list will automatically be picked up'); the change is effective for the next message (5 ms later)",
     "the logged-in user is the session user ('me') until the next login: editing settings.credentials.username while "
     "logged in does not change who own membership / operator notifications and RoomList are about",
+    "server-derived state does not survive the session (C16): after a connection loss + re-login rooms are empty and "
+    "per-user status / stats / privileges are unknown / False again, also for User objects the application still "
+    "holds from the old session (pinned on HEAD: the managers hand out fresh objects after the loss); block list and "
+    "other settings persist; the re-login is always made as 'me' (credentials.username is set back first)",
     "statistics fold: the last announced value of each counter wins, 0 included (0 files / 0 uploads are real "
     "values; `None` only means never announced); an unsolicited AddUser reply is folded like the solicited one "
     "(status, stats, country when the user exists; nothing otherwise) and emits no public Room*/User* event",
@@ -90,10 +99,13 @@ BLOCK_OPS = ['block_set', 'block_del', 'block_assign']
 # the next login); the logged-in user stays 'me' until the next login, which is what the fold keeps using
 CRED_NAMES = ['me', 'u1', 'u2', 'zz']
 SETTINGS_OPS = BLOCK_OPS + ['cred_name']
+# the server connection is lost (reset) and the application connects and logs in again (as 'me'): everything the
+# server announced in the old session is gone, the fold restarts from the login baseline (at most 2 per case)
+RELOGIN = 'relogin'
 FLAG_CHOICES = [0, F_PRIVATE, F_PRIVATE, F_ROOM, F_ROOM, 3, 4, 60, 63]
 OPS = (['room_list', 'join', 'user_joined', 'tickers', 'ticker_added', 'status', 'stats', 'add_user', 'add_priv',
         'priv_users',
-        'check_priv', 'private_msg'] + ROOM_OPS + ROOM_USER_OPS + ROOM_USERS_OPS + CHAT_ROOM_OPS + SETTINGS_OPS)
+        'check_priv', 'private_msg'] + ROOM_OPS + ROOM_USER_OPS + ROOM_USERS_OPS + CHAT_ROOM_OPS + SETTINGS_OPS + [RELOGIN])
 
 EVENT_CLASSES = [
     'RoomListEvent', 'RoomMessageEvent', 'PublicMessageEvent', 'PrivateMessageEvent', 'RoomTickersEvent',
@@ -166,6 +178,8 @@ def _op(draw, kind, room_bias, user_bias=None):
                 's': draw(_stat), 'c': draw(st.integers(0, 2))}
     if kind == 'add_priv':
         return {'op': kind, 'u': draw(_user)}
+    if kind == RELOGIN:
+        return {'op': kind}
     if kind == 'cred_name':
         return {'op': kind, 'n': draw(st.sampled_from([1, 1, 2, 3, 3, 0]))}
     if kind == 'block_set':
@@ -188,11 +202,17 @@ ROLES = ['members', 'operators', 'grant_member', 'revoke_member', 'member_grante
 
 # chat of every kind interleaved with run-time changes of the block list (weighted towards messages)
 BLOCKING = CHAT_OPS + CHAT_OPS + ['block_set', 'block_set', 'block_del', 'block_assign']
+# what the old session announced about a user must not leak into the new one
+ACROSS_OLD = ['status', 'status', 'add_priv', 'add_priv', 'priv_users', 'stats', 'add_user', 'join', 'user_joined',
+              'op_granted', 'member_granted', 'ticker_added', 'room_list']
+ACROSS_NEW = ['join', 'join', 'user_joined', 'user_joined', 'status', 'stats', 'add_user', 'user_left', 'priv_users',
+              'op_revoked', 'ticker_removed', RELOGIN]
+ACROSS_SESSIONS = ACROSS_OLD + ACROSS_NEW
 
 
 @st.composite
 def case_strategy(draw):
-    mode = draw(st.integers(0, 6))
+    mode = draw(st.integers(0, 7))
     if mode == 0:
         kinds = list(OPS)
     elif mode == 4:
@@ -201,16 +221,29 @@ def case_strategy(draw):
         kinds = ROLES           # private-room roles: grant / revoke / list compositions
     elif mode == 6:
         kinds = BLOCKING        # block / change flags / unblock after the sender's messages were already filtered
+    elif mode == 7:
+        kinds = ACROSS_SESSIONS
     else:
         kinds = draw(st.lists(st.sampled_from(OPS), min_size=2, max_size=7, unique=True))
         if draw(st.integers(0, 2)) > 0:
             kinds = kinds + ['join', 'user_joined']        # something that makes users referenced
     room_bias = draw(st.sampled_from([None, None, 0, 1]))
     user_bias = draw(st.sampled_from([None, None, 0, 1, 2]))
-    n = draw(st.integers(4 if mode >= 4 else 1, 12))
-    ops = [draw(_op(draw(st.sampled_from(kinds)), room_bias, user_bias)) for _ in range(n)]
+    if mode == 7:
+        # scaffold: the old session announces things about a user (held or not by the application), the
+        # connection is lost, and the new session references the same user again
+        user_bias = draw(st.sampled_from([0, 1, 1, 2, 2]))
+        pre = [draw(st.sampled_from(ACROSS_OLD)) for _ in range(draw(st.integers(1, 5)))]
+        post = [draw(st.sampled_from(ACROSS_NEW)) for _ in range(draw(st.integers(1, 5)))]
+        ops = [draw(_op(k, room_bias, user_bias)) for k in pre + [RELOGIN] + post]
+    else:
+        n = draw(st.integers(4 if mode >= 4 else 1, 12))
+        ops = [draw(_op(draw(st.sampled_from(kinds)), room_bias, user_bias)) for _ in range(n)]
     blocked = [draw(st.sampled_from([0, 0, 0, F_PRIVATE, F_ROOM, 3, 4, 60, 63])) for _ in USERS]
-    return {'blocked': blocked, 'ops': ops}
+    # the application keeps (strong references to) the User objects it is handed in events, e.g. in a roster;
+    # normally the harness holds none (users are weakly held by the library)
+    hold = draw(st.sampled_from([True, True, False] if mode == 7 else [True, False, False, False]))
+    return {'blocked': blocked, 'ops': ops, 'hold_users': hold}
 
 
 # ---------------------------------------------------------------------------
@@ -259,6 +292,8 @@ def _sanitise(case):
             continue
         k = d['op']
         o = {'op': k}
+        if k == RELOGIN and sum(1 for x in ops if x['op'] == RELOGIN) >= 2:
+            continue
         if k == 'room_list':
             for f in ('public', 'owned', 'member', 'operated'):
                 o[f] = _ilist(d.get(f), 2, 2)
@@ -318,7 +353,7 @@ def _sanitise(case):
             fs = d.get('fs') if isinstance(d.get('fs'), list) else []
             o['fs'] = [_i(fs[j] if j < len(fs) else 0, 64) for j in range(3)]
         ops.append(o)
-    return blocked, ops
+    return blocked, ops, bool(case.get('hold_users')) if isinstance(case.get('hold_users'), (bool, int)) else False
 
 
 # value of each counter per digit: digit 0 is a real 0 ("shares nothing", "no uploads yet"), the other values are
@@ -436,9 +471,12 @@ def _room_view(room):
 class Replica:
     def __init__(self, blocked, me_view):
         self.rooms = {}
-        self.users = {n: {'status': 'UNKNOWN', 'stats': (None, None, None, None), 'slots_free': None,
-                          'country': None, 'privileged': False} for n in USERS}
+        self.unknown_view = {'status': 'UNKNOWN', 'stats': (None, None, None, None), 'slots_free': None,
+                             'country': None, 'privileged': False}
+        self.login_view = dict(me_view)     # the own user right after a login (status, AddUser reply of the sim server)
+        self.users = {n: dict(self.unknown_view) for n in USERS}
         self.users['me'] = dict(me_view)
+        self.sessions = 1
         self.src = {n: {f: 'initial' for f in USER_FIELDS} for n in USERS}
         self.blocked = dict(zip(USERS, blocked))
         self.configured_name = 'me'
@@ -591,6 +629,18 @@ class Replica:
         elif k == 'check_priv':
             self.time_left = o['n']
             ev.append(('PrivilegesUpdateEvent', None, None, o['n']))
+        elif k == RELOGIN:
+            # server-derived state does not survive the session: rooms, per-user status / stats / privileges
+            self.rooms = {}
+            for n in USERS:
+                self.users[n] = dict(self.login_view if n == 'me' else self.unknown_view)
+                self.src[n] = {f: 'initial' for f in USER_FIELDS}
+                w(n, 'status', 'stats', 'privileged')
+            for n in ROOMS:
+                w(n, 'joined', 'users', 'owner', 'members', 'operators', 'tickers', 'private')
+            self.time_left = None
+            self.configured_name = 'me'        # the harness logs in as 'me' again
+            self.sessions += 1
         elif k == 'cred_name':
             self.configured_name = CRED_NAMES[o['n']]      # nothing else: the session user is still 'me'
         elif k == 'block_set':
@@ -670,13 +720,32 @@ def _norm_event(e):
     return (n, None, None, None)
 
 
-class _Recorder:
-    """Event listener that keeps plain tuples only (a stored event would keep User objects alive)."""
+def _users_of_event(e):
+    out = []
+    for attr in ('user', 'member', 'current', 'users', 'operators', 'members'):
+        v = getattr(e, attr, None)
+        out.extend(v if isinstance(v, list) else ([] if v is None else [v]))
+    m = getattr(e, 'message', None)
+    if getattr(m, 'user', None) is not None:
+        out.append(m.user)
+    return [u for u in out if type(u).__name__ == 'User']
 
-    def __init__(self):
+
+class _Recorder:
+    """Event listener that keeps plain tuples only (a stored event would keep User objects alive) - unless the case
+    says ``hold_users``: then it behaves like an application roster and keeps every User object it is handed."""
+
+    def __init__(self, hold=False):
         self.items = []
+        self.hold = hold
+        self.roster = []
 
     async def on_event(self, event):
+        if self.hold:
+            try:
+                self.roster.extend(_users_of_event(event))
+            except Exception:
+                pass
         try:
             self.items.append(_norm_event(event))
         except Exception as exc:       # malformed event object: shows up as a payload mismatch
@@ -744,7 +813,7 @@ def _observe(client):
 
 def run_case(case) -> CaseResult:
     res = CaseResult()
-    blocked, ops = _sanitise(case)
+    blocked, ops, hold_users = _sanitise(case)
     if not ops:
         return res
 
@@ -767,7 +836,7 @@ def run_case(case) -> CaseResult:
         try:
             client = await world.start_client(settings)
             await asyncio.sleep(0.05)
-            rec = _Recorder()
+            rec = _Recorder(hold_users)
             for cname in EVENT_CLASSES:
                 client.events.register(getattr(ev_mod, cname), rec.on_event)
             _, users0, _ = _observe(client)
@@ -776,6 +845,7 @@ def run_case(case) -> CaseResult:
             seen_users = set()
             alive_prev = {}
             block_changed = False
+            relogged = False
             for step, o in enumerate(ops):
                 k = o['op']
                 if k == 'join':
@@ -789,6 +859,20 @@ def run_case(case) -> CaseResult:
                 if k in SETTINGS_OPS:
                     _apply_settings_op(settings, o)
                     block_changed = block_changed or k in BLOCK_OPS
+                elif k == RELOGIN:
+                    world.server.close_session(kind='reset')
+                    await asyncio.sleep(0.02)
+                    lost = client.session is None
+                    settings.credentials.username = 'me'
+                    await client.network.connect_server()
+                    await client.login()
+                    await asyncio.sleep(0.05)
+                    rec.drain()                 # login chatter (PrivilegesUpdateEvent of the CheckPrivileges reply)
+                    alive_prev = {}
+                    relogged = True
+                    if not lost:
+                        violate('C19/relogin:session-survived-connection-loss', f'step {step}: client.session was '
+                                                                                 f'still set 20 ms after the reset')
                 else:
                     world.server.send(_build(o))
                 await asyncio.sleep(0.005)
@@ -836,7 +920,8 @@ def run_case(case) -> CaseResult:
                     have = rooms.get(n) or _room_view(None)
                     for f in ROOM_FIELDS:
                         if want[f] != have[f]:
-                            violate(f'C19/room-view:{f}:after={k}{cn}',
+                            violate(f'C19/room-view:{f}:after={k}{cn}' if k != RELOGIN else
+                                    f'C19/room-view:{f}:survived-relogin',
                                     f'{where}: room {n} {f}: client has {have[f]!r}, the announcements imply '
                                     f'{want[f]!r} (room in client: {rooms.get(n)})')
                             # re-synchronise so that the divergence is reported once, at its origin
@@ -862,7 +947,11 @@ def run_case(case) -> CaseResult:
                         for f in USER_FIELDS:
                             if v[f] != want[f]:
                                 src = replica.src[n][f]
-                                if f == 'privileged' and created and src != k:
+                                if relogged and src == 'initial':
+                                    # nothing in this session announced it: a left-over of the previous session
+                                    kind = f'C19/user-view:{f}:survived-relogin:' + (
+                                        'own-user' if n == 'me' else 'other-user')
+                                elif f == 'privileged' and created and src != k:
                                     # root cause is the handler that took the announcement, not this message
                                     kind = f'C19/user-view:privileged:not-remembered:announced-by={src}'
                                 else:
@@ -900,9 +989,20 @@ def run_case(case) -> CaseResult:
                             'privileged': False})
     zero_first = zero_after_nonzero = False
     chat_labels = set()
+    priv_old = set()
+    if hold_users:
+        chat_labels.add('hold-users')
     filtered_once = set()       # (user, flag bit) for which a message was already let through / dropped
     for o in ops:
         prev = {n: rep.users[n]['stats'] for n in USERS}
+        if o['op'] == RELOGIN:
+            chat_labels.add('relogin')
+            priv_old |= {n for n in USERS if rep.users[n]['privileged']}
+        if o['op'] in ('join', 'user_joined') and rep.sessions > 1:
+            named = [USERS[e['u']] for e in o['users']] if o['op'] == 'join' else [USERS[o['u']]]
+            if any(n in priv_old and not rep.users[n]['privileged'] for n in named):
+                chat_labels.add('privileged-in-old-session-referenced-again-in-new-session'
+                                + ('-held' if hold_users else ''))
         if rep.configured_name != 'me' and o['op'] in ('member_granted', 'member_revoked', 'op_granted',
                                                         'op_revoked', 'room_list'):
             chat_labels.add('own-role-message-after-configured-username-changed:' + (
@@ -958,6 +1058,23 @@ def run_shard(ctx):
 
 # one deterministic case per genuine-defect kind found on the pinned tree (regressions once fixed)
 KNOWN_REPLAYS = {
+    # regression: what the old session announced about users the application still holds does not leak into the
+    # session after a connection loss + re-login
+    'C19/user-view:survived-relogin': {
+        'blocked': [0, 0, 0], 'hold_users': True, 'ops': [
+            {'op': 'join', 'r': 0, 'users': [{'u': 0, 'st': 2, 's': [1, 1, 1, 1], 'sl': 1, 'c': 0},
+                                             {'u': 1, 'st': 2, 's': [2, 2, 2, 2], 'sl': 1, 'c': 1}],
+             'owner': 1, 'operators': [0]},
+            {'op': 'status', 'u': 1, 'st': 1, 'p': True},
+            {'op': 'add_priv', 'u': 2},
+            {'op': 'relogin'},
+            {'op': 'join', 'r': 0, 'users': [{'u': 0, 'st': 2, 's': [1, 1, 1, 1], 'sl': 1, 'c': 0},
+                                             {'u': 1, 'st': 2, 's': [2, 2, 2, 2], 'sl': 1, 'c': 1}],
+             'owner': None, 'operators': []},
+            {'op': 'user_joined', 'r': 0, 'u': 2, 'st': 2, 's': [1, 0, 1, 0], 'sl': 1, 'c': 2},
+            {'op': 'status', 'u': 0, 'st': 2, 'p': True},
+            {'op': 'relogin'},
+            {'op': 'user_joined', 'r': 1, 'u': 1, 'st': 0, 's': [0, 0, 0, 0], 'sl': 0, 'c': 0}]},
     # regression: own grants / revokes concern the logged-in user even after settings.credentials.username was edited
     'C19/room-view:configured-username-changed': {
         'blocked': [0, 0, 0], 'ops': [
